@@ -203,7 +203,12 @@ def frozen_scheduler(lab: Lab) -> Any:
             return inner.schedule(self._wrap(action), state)
 
         def schedule_relative(self, duetime: Any, action: Any, state: Any = None) -> Any:
-            return inner.schedule_relative(duetime, self._wrap(action), state)
+            # ... and it is slow: every positive relative delay takes 1000 s longer. Timers of an operator that was given the lab's
+            # scheduler must not end up here.
+            d = self.to_timedelta(duetime)
+            if d > dt.timedelta(0):
+                d += dt.timedelta(seconds=1000)
+            return inner.schedule_relative(d, self._wrap(action), state)
 
         def schedule_absolute(self, duetime: Any, action: Any, state: Any = None) -> Any:
             return inner.schedule_absolute(duetime, self._wrap(action), state)
